@@ -348,7 +348,7 @@ pub fn execute(ctx: &mut Ctx, lines: &[String]) -> Vec<String> {
     for (li, line) in lines.iter().enumerate() {
         let t = tokens(line);
         let needs_logger = matches!(t[0], "SET" | "PUSH" | "POP" | "PARSENEW" | "PARSEPUSH" | "GRID" | "Q" | "LOG" | "CSTART" | "CENTER" | "CGO" | "CFINISH" | "CQUIET" | "CRACE");
-        let needs_spec = matches!(t[0], "DISPLAY" | "DISPLAYSORTED" | "TOML" | "EN" | "MAXLEVEL" | "INIT" | "SET" | "PUSH");
+        let needs_spec = matches!(t[0], "DISPLAY" | "DISPLAYSORTED" | "TOML" | "STARTSPECFILE" | "EN" | "MAXLEVEL" | "INIT" | "SET" | "PUSH");
         if needs_logger && st.logger.is_none() {
             out.push("no-logger".into());
             continue;
@@ -455,9 +455,40 @@ pub fn execute(ctx: &mut Ctx, lines: &[String]) -> Vec<String> {
                     hexs(&text)
                 }
             }
+            // a logger started with a specfile that does not exist yet (the specification is rendered into
+            // it, the watcher is set up), one record, shutdown: nothing of this may panic (C10)
+            ["STARTSPECFILE", id] => {
+                ctx.report.count("op.STARTSPECFILE");
+                let spec = st.specs[*id].clone();
+                let d = ctx.work.join(format!("specfile-{}-{}", std::process::id(), ctx.case_no));
+                let _ = std::fs::remove_dir_all(&d);
+                std::fs::create_dir_all(&d).unwrap();
+                let d2 = d.clone();
+                // (every Logger::build sets the process-global max level: it is put back afterwards, the
+                //  gate observations of the case belong to the case's own logger)
+                let gate_before = log::max_level();
+                let ep = st.err_path.clone();
+                let r = catch_unwind(AssertUnwindSafe(move || {
+                    let sink = Arc::new(Mutex::new(Vec::new()));
+                    let primary = RecWriter { name: "_primary".into(), ceiling: LevelFilter::Trace, sink };
+                    if let Ok((lg, hd)) = Logger::with(spec).log_to_writer(Box::new(primary)).error_channel(flexi_logger::ErrorChannel::File(ep)).panic_if_error_channel_is_broken(false).build_with_specfile(d2.join("spec.toml")) {
+                        lg.log(&Record::builder().level(log::Level::Info).target("t").args(format_args!("x")).build());
+                        hd.shutdown();
+                    }
+                }));
+                let _ = std::fs::remove_dir_all(&d);
+                log::set_max_level(gate_before);
+                match r {
+                    Ok(()) => "ok".into(),
+                    Err(_) => { ctx.report.fail(&case_id, "panic", &format!("line {li}: starting a logger with a new specfile panicked (specification {:?})", spec_str(&st.specs[*id]))); "panic".into() }
+                }
+            }
             ["TOML", id] => {
                 let s = &st.specs[*id];
-                let text = toml_text(s);
+                let text = match catch_unwind(AssertUnwindSafe(|| toml_text(s))) {
+                    Ok(t) => t,
+                    Err(_) => { ctx.report.fail(&case_id, "render-panics", &format!("line {li}: to_toml panicked for the specification {:?}", spec_str(s))); out.push("panic".into()); continue; }
+                };
                 ctx.report.count("op.TOML");
                 match LogSpecification::from_toml(&text) {
                     Ok(s2) => {
